@@ -233,6 +233,10 @@ def five_fields(ctx, cfg):
         if pc is not None:
             pt = fn.blocks[pc[4]]["term"] if len(pc) > 4 and isinstance(pc[4], int) else None
             ty = ((pt or {}).get("callee", {}).get("args") or "").strip("[]").split("::")[-1]
+            if "/" in ty or "#" in ty or not ty:
+                # parse::<T> inside a generic helper: the concrete type is that of the value handed to the constructor
+                oty = E._op_ty(fn, a)
+                ty = (oty or {}).get("s", "?").split("::")[-1]
             nc = find_call(pc[3][0], ("iter::Iterator::next",)) if pc[3] else None
             why = "the string parsed for field %d does not come from split.next()" % i
             if nc is not None and len(nc) > 4:
@@ -247,7 +251,7 @@ def five_fields(ctx, cfg):
                             if tested_on_path(fn, G, R, eb, nb):
                                 few = True
                     ok = few and chain_ok
-                    why = "a missing field %d is not reported as Pattern(TooFewParameters)" % i if not few else "split.next() calls are not in one chain"
+                    why = "a missing field %d is not reported as Pattern(TooFewParameters)" % i if not few else ("split.next() calls are not in one chain" if not chain_ok else "wrong type")
                 elif idx:
                     why = "field %d is taken from the %s split.next() call" % (i, ["1st", "2nd", "3rd", "4th", "5th", "6th", "7th"][min(idx[0], 6)])
         ok_ty = ty == want_ty
